@@ -78,6 +78,7 @@ class System:
         ops += [('remove_elem', i) for i in range(n)]
         ops += [('pop',)] + [('pop', i) for i in range(-n - 1, n + 2)]
         ops += [('reverse',), ('clear',)]
+        ops += [('mutate', i) for i in range(min(n, 3))]       # the groups are objects: editing one must not confuse the list
         ops += [('get', i) for i in range(-n - 1, n + 2)]
         ops += [('slice', i, j) for i in range(0, n + 1) for j in range(i, n + 2)]
         ops += [('slice', None, None, -1), ('slice', -1, None), ('slice', None, -1), ('slice', None, None, 2)]
@@ -112,6 +113,10 @@ class System:
                 return ('none',)
             if k == 'pop':
                 return ('grp', m.pop(*op[1:]))
+            if k == 'mutate':
+                g = m[op[1]]
+                m[op[1]] = g[:-1] + 'Q' + g[-1]
+                return ('none',)
             if k == 'reverse':
                 m.reverse()
                 return ('none',)
@@ -166,6 +171,8 @@ class System:
                 r = a.remove(a[op[1]])
             elif k == 'pop':
                 r = a.pop(*op[1:])
+            elif k == 'mutate':
+                r = a[op[1]].append('Q')
             elif k == 'reverse':
                 r = a.reverse()
             elif k == 'clear':
@@ -333,7 +340,7 @@ def coverage(tier, total):
         'transitions': int(total.extra['transitions']),
         'traces_validated_against_impl': int(total.extra['traces']),
         'max_depth': depth_of(tier),
-        'rule': 'BFS depth %d over append/extend/insert(every index -len-2..len+2)/remove/pop()/pop(i)/reverse/clear/'
+        'rule': 'BFS depth %d over append/extend/insert(every index -len-2..len+2)/remove/pop()/pop(i)/reverse/clear/editing one of the first three groups in place/'
                 'indexing/slicing/args=args[::-1]/args=args[i:j] with groups %r given as strings and as objects, '
                 'mismatched strings %r, whitespace strings; owners %r; state key (list, shadow list), '
                 'deduplicated globally per owner; every operation of the menu executed from every distinct state'
